@@ -145,7 +145,7 @@ function checkMap ({ a, resp, code, file, v, res }) {
 
 module.exports = mk({
   id: 'C09',
-  families: ['A', 'B', 'C', 'M', 'S', 'T', 'Q', 'R'],
+  families: ['A', 'B', 'C', 'M', 'S', 'T', 'Q', 'R', 'K'],
   // real library files: the same static oracle on syntax nobody wrote an expectation for
   corpus: { configs: ['FULL', 'RENAMED'], quickLimit: 60 },
   familyOpts: (tier) => ({ B: { k: 1 }, A: tier === 'thorough' ? {} : {} }),
